@@ -94,6 +94,9 @@ MUTANTS = [
     ('codegen.py', "        adj = xs[-1] - cs[-1]", "        adj = xs[-1] + cs[-1]", 'inverse', 'codegen_shirokov_inv'),
     ('codegen.py', "powers[step] = operation(powers[chain[-2]], powers[step - chain[-2]])", "powers[step] = operation(powers[chain[-2]], powers[chain[-2]])", 'inverse', 'codegen_shirokov_inv'),
     ('codegen.py', "    num = num if x is None else x * num", "    num = num if x is None else num * x", 'inverse', 'the quotient is x * inverse(y)'),
+    ('codegen.py', "        Wj._values = tuple(v / j for v in Wj._values)", "        Wj._values = tuple(v / (j + 1) for v in Wj._values)", 'outerexp', 'codegen_outerexp == sum'),
+    ('codegen.py', "    k = alg.d\n", "    k = alg.d // 2\n", 'outerexp', 'codegen_outerexp == sum'),
+    ('codegen.py', "    odd_Ws = codegen_outerexp(x, asterms=True)[1::2]", "    odd_Ws = codegen_outerexp(x, asterms=True)[0::2]", 'outerexp', 'codegen_outersin == sum'),
     # ---- harmless refactorings: must stay green (no VIOLATION); out-of-subset is acceptable (undecided), refutation is a false alarm
     ('codegen.py', "            termstr = vx * vy if sign > 0 else (- vx * vy)\n            if key_out in res:\n                res[key_out] += termstr\n            else:\n                res[key_out] = termstr",
      "            term = vx * vy if sign > 0 else (- vx * vy)\n            if key_out not in res:\n                res[key_out] = term\n            else:\n                res[key_out] = res[key_out] + term", 'codegen', 'pass'),
@@ -137,6 +140,9 @@ def build_group(H, group):
         AC.vc_new(H)
     elif group == 'tape':
         T.vc_tape_operators(H)
+    elif group == 'outerexp':
+        from contracts import inverse_c as IC
+        IC.vc_outerexp_generic(H, 'quick')
     elif group == 'composegen':
         from contracts import inverse_c as IC
         IC.vc_compositions_generic(H, 'quick')
